@@ -399,9 +399,67 @@ pub fn run(ctx: &Ctx) -> Report {
     });
     st = st.merge(st_e);
 
+    // concurrency: validations of requests that differ only in their timestamp (another instant, or another
+    // rendering of the same instant), multiplexed on one thread with a provider that is Pending before it answers,
+    // in every order of polls: each is verified against its own timestamp line (accepted), and a request carrying
+    // one timestamp under the signature made for the other is refused
+    {
+        use rayon::prelude::*;
+        let now = e2e::base_instant();
+        let mk = |text: &str, inst: Instant, sign_as: Option<Instant>| -> Case {
+            let mut plan = e2e::base_plan(Carrier::Header);
+            plan.instant = sign_as.unwrap_or(inst);
+            plan.date_text = text.to_string();
+            // x-amz-date is left unsigned so that only the timestamp line of the string-to-sign tells the requests apart
+            plan.signed = vec!["host".into()];
+            e2e::rekey(&mut plan, e2e::SECRET, "us-east-1", "service");
+            Case { wire: WireReq::from_wire(&build(&plan).wire), cfg: Cfg::basic(now), prov: ProvSpec::standard() }
+        };
+        let t0 = now;
+        let t1 = Instant::new(now.secs + 1, 0);
+        let groups: Vec<(&str, Vec<Case>, Vec<bool>)> = vec![
+            ("two instants one second apart", vec![mk(&t0.compact(), t0, None), mk(&t1.compact(), t1, None)], vec![true, true]),
+            ("offset rendering and the next second", vec![mk("2015-08-30T14:36:00+02:00", t0, None), mk(&t1.compact(), t1, None), mk(&t0.compact(), t0, None)], vec![true, true, true]),
+            ("a timestamp under the signature made for another", vec![mk(&t0.compact(), t0, Some(t1)), mk(&t1.compact(), t1, None)], vec![false, true]),
+        ];
+        let pendings: Vec<(u32, u32, u32)> = if ctx.tier.thorough() { vec![(0, 0, 1), (1, 1, 1), (0, 1, 2)] } else { vec![(0, 0, 1), (1, 1, 1)] };
+        let jobs: Vec<(usize, (u32, u32, u32))> = (0..groups.len()).flat_map(|g| pendings.iter().map(move |p| (g, *p))).collect();
+        let parts: Vec<crate::core::Stats> = jobs
+            .par_iter()
+            .map(|(g, (bp, rp, fp))| {
+                let (gname, cases, expect) = &groups[*g];
+                let mut conc = crate::core::Stats::new();
+                let make = |i: usize| crate::checks::c18::make_task(&cases[i], *bp, *rp, *fp);
+                let stats = crate::sched::explore_tasks(cases.len(), &make, 2_000_000, &mut |order, outs| {
+                    conc.evaluations += 1;
+                    conc.validated += 1;
+                    conc.transitions += order.len() as u64;
+                    conc.nontrivial(&(gname, bp, rp, fp, order));
+                    conc.state(&(outs.to_vec(), "concurrent"));
+                    let got: Vec<bool> = outs.iter().map(|o| o.starts_with("Ok")).collect();
+                    if got != *expect {
+                        conc.violation(crate::core::Violation {
+                            index: n * 5 + conc.evaluations,
+                            what: format!("timestamp-line-of-one-validation-used-for-another({})", gname),
+                            case: json!({"group": gname, "poll_order": order, "pending": [bp, rp, fp], "requests": cases.iter().map(|c| c.wire.render()).collect::<Vec<_>>()}),
+                            expected: format!("accepted = {:?}", expect),
+                            observed: format!("{:?}", outs),
+                            known: None,
+                        });
+                    }
+                });
+                conc.outcome(&format!("concurrent:{} interleavings", if stats.capped { "capped" } else { "all" }));
+                conc
+            })
+            .collect();
+        for p in parts {
+            st = st.merge(p);
+        }
+    }
+
     Report {
         stats: st,
-        rule: "every value 00..99 of month, day, hour, minute, second, offset hour and offset minute (basic and extended form); 9 years x boundary instants; every day 00..32 of every month of 2015, 2016, 1900, 2000 in two forms; the full product of boundary values of month/day (10 pairs) x hour (5) x minute (5) x second (5, incl. 60 and 61) x 10 zones; all 2^5 separator combinations; every offset hh(00..99) x mm(00..99) x sign (basic; extended for all in thorough); 12 zone designators; all 2^5 combinations of blank-padded / one-digit fields in four layouts; fractions of 0..12 and 13..10000 digits with '.' and ','; every string at edit distance 1 (insert/delete/substitute over 23 characters incl. 3 non-ASCII) from six bases (thorough: also every pair of substitutions and substitution+insertion on two bases); every ordered pair over ~70 related strings (six well-formed timestamps and their look-alikes: separators removed / added, zone dropped, case, blanks, one digit changed) parsed back to back on one thread; each string is evaluated through the unstable API (value and string-to-sign line compared with the reference parser) and end to end on the header carrier (bare and space-padded) and the query carrier. states = distinct reference instants + reject class; non-trivial = distinct strings".into(),
+        rule: "every value 00..99 of month, day, hour, minute, second, offset hour and offset minute (basic and extended form); 9 years x boundary instants; every day 00..32 of every month of 2015, 2016, 1900, 2000 in two forms; the full product of boundary values of month/day (10 pairs) x hour (5) x minute (5) x second (5, incl. 60 and 61) x 10 zones; all 2^5 separator combinations; every offset hh(00..99) x mm(00..99) x sign (basic; extended for all in thorough); 12 zone designators; all 2^5 combinations of blank-padded / one-digit fields in four layouts; fractions of 0..12 and 13..10000 digits with '.' and ','; every string at edit distance 1 (insert/delete/substitute over 23 characters incl. 3 non-ASCII) from six bases (thorough: also every pair of substitutions and substitution+insertion on two bases); every ordered pair over ~70 related strings (six well-formed timestamps and their look-alikes: separators removed / added, zone dropped, case, blanks, one digit changed) parsed back to back on one thread; each string is evaluated through the unstable API (value and string-to-sign line compared with the reference parser) and end to end on the header carrier (bare and space-padded) and the query carrier; two or three validations whose requests differ only in the timestamp are multiplexed on one thread against a provider that is Pending first, in every order of polls (each verified against its own timestamp line). states = distinct reference instants + reject class; non-trivial = distinct strings".into(),
         bounds: json!({"strings": n}),
         exhaustive: true,
         assumptions: vec![
